@@ -104,7 +104,8 @@ def abstract_opts(o):
     def pats(ps):
         return [{'neg': p.startswith('!')} for p in ps]
     return {
-        'repeat': o.get('repeat', 1), 'stop': bool(o.get('stop')),
+        # -D ends the run at the first failure or error, like -x
+        'repeat': o.get('repeat', 1), 'stop': bool(o.get('stop') or o.get('pm')),
         'j': o.get('j', 1), 'list': bool(o.get('list')),
         'tpats': pats(o.get('t', ())), 'mpats': pats(o.get('m', ())),
         'lpats': pats(o.get('layer', ())),
@@ -148,6 +149,10 @@ def concrete_args(o):
         a += ['--at-level', str(o['at_level'])]
     if o.get('buffer'):
         a.append('--buffer')
+    if o.get('color'):
+        a.append('-c')
+    if o.get('pm'):
+        a.append('-D')
     if o.get('shuffle'):
         a.append('--shuffle')
     if o.get('shuffle_seed') is not None:
